@@ -33,7 +33,7 @@ Lemma split_on_acc_sep : forall sep k r cur, no_sep sep k ->
   split_on_acc sep (k ++ sep :: r) cur = (rev cur ++ k) :: split_on_acc sep r [].
 Proof.
   unfold no_sep. induction k as [|c k IH]; intros r cur Hk; cbn [app split_on_acc].
-  - rewrite N.eqb_refl. rewrite app_nil_r. reflexivity.
+  - rewrite N.eqb_refl. rewrite rev_append_rev. rewrite !app_nil_r. reflexivity.
   - destruct (c =? sep) eqn:E.
     + apply N.eqb_eq in E. exfalso. apply Hk. left. exact E.
     + rewrite IH by (intros Hin; apply Hk; right; exact Hin). cbn [rev]. rewrite <- app_assoc. reflexivity.
@@ -42,7 +42,7 @@ Qed.
 Lemma split_on_acc_last : forall sep k cur, no_sep sep k -> split_on_acc sep k cur = [rev cur ++ k].
 Proof.
   unfold no_sep. induction k as [|c k IH]; intros cur Hk; cbn [split_on_acc].
-  - rewrite app_nil_r. reflexivity.
+  - rewrite rev_append_rev. rewrite !app_nil_r. reflexivity.
   - destruct (c =? sep) eqn:E.
     + apply N.eqb_eq in E. exfalso. apply Hk. left. exact E.
     + rewrite IH by (intros Hin; apply Hk; right; exact Hin). cbn [rev]. rewrite <- app_assoc. reflexivity.
